@@ -18,7 +18,9 @@ from collections import Counter
 from . import common as C
 
 PROP = "C07"
-MODEL = "Stopping"
+MODEL = "Stopping Interp StopInterp"
+CHECK_FN = "check_case7"
+SKIPPED_FN = "case7_unsupported"
 SHARD = 400
 CASE_TIMEOUT = 60
 RULE = ("cases: (i) direct: SnowfakeryApplication/IdManager driven with r generate_id calls per iteration, "
@@ -256,6 +258,44 @@ def gen_e2e_fixed():
     return out
 
 
+# ---------------------------------------------------------------- stream "interp": SF-core recipes with a target
+IW = dict(dual_fwd=0.2, fwd=0.45, nick=0.5, ref=0.3, zero_count=0.3, once=0.3, hidden_table=0.15, formula=0.3,
+          randref=0.06)
+
+
+def gen_interp(rng):
+    """A generated SF-core recipe (forward references reserve ids before the rows exist, zero counts,
+    count formulas, just_once, nested/friend templates of the criterion table), an optional history of
+    repetition runs chained by real continuation files, then one run with a criterion."""
+    from . import sfcore as S
+    w = dict(IW, dual_fwd=0.95, nick=0.8) if rng.random() < 0.3 else IW
+    r, feats = S.gen_recipe(rng, w)
+    tables = sorted({t["table"] for t in S.walk_templates(r)})
+    # tables whose ids are reserved by forward references before their rows exist: here the counter
+    # the application reads and the number of rows created can drift apart if the slots misbehave
+    fwd = sorted({st[1]["table"] for st in r["stmts"] if st[0] == "obj" and
+                  any(f == "fz1" for f, _ in sum((s2[1]["fields"] for s2 in r["stmts"] if s2[0] == "obj"), []))
+                  and st[1].get("nick") and
+                  any(d == ["ref", st[1]["nick"]] for s2 in r["stmts"] if s2[0] == "obj" for _, d in s2[1]["fields"])})
+    nicks = sorted({t["nick"] for t in S.walk_templates(r) if t.get("nick")})
+    x = rng.random()
+    if x < 0.72 and tables:
+        crit = [rng.choice(fwd if fwd and rng.random() < 0.7 else tables), rng.choice([1, 1, 2, 2, 3, 4, 5, 6])]
+    elif x < 0.84:
+        crit = [COUNT_REPS, rng.choice([1, 2, 3])]
+    elif x < 0.88:
+        crit = None
+    else:       # a name no template creates: nickname, near miss, unused table
+        pool = [n for n in nicks if n not in tables] + [t.lower() for t in tables if t.lower() not in tables] + \
+               [t + " " for t in tables] + ["Z", ""]
+        crit = [rng.choice(pool), rng.choice([1, 2])]
+    pre = rng.choice([[], [], [], [1], [1], [2], [1, 1], [2, 1]])
+    from .c04 import row_valued_in_once
+    if pre and row_valued_in_once(r):
+        pre = []
+    return {"kind": "interp", "recipe": r, "pre": pre, "crit": crit, "features": feats}
+
+
 def generate(rng, tier):
     cases = gen_direct_boundaries()
     cases.append(_direct(["", 1], None, [0, 0, 0]))          # former K10 at the arithmetic level
@@ -265,11 +305,13 @@ def generate(rng, tier):
         cases.extend(gen_direct_random(rng, 1200))
         cases.extend(gen_e2e_fixed())
         cases.extend(gen_e2e(rng) for _ in range(500))
+        cases.extend(gen_interp(rng) for _ in range(260))
     else:
         cases.extend(gen_direct_exhaustive())
         cases.extend(gen_direct_random(rng, 8000))
         cases.extend(gen_e2e_fixed())
         cases.extend(gen_e2e(rng) for _ in range(6000))
+        cases.extend(gen_interp(rng) for _ in range(4000))
     return cases
 
 
@@ -447,7 +489,58 @@ def _run_e2e(case):
     return {"runs": runs_obs}
 
 
+def _counter(cont_text, table):
+    import yaml
+    return (yaml.safe_load(cont_text)["id_manager"]["last_used_ids"] or {}).get(table, 0)
+
+
+def _run_interp(case):
+    """pre-history (repetition runs through real continuation files), the run with the criterion, and -
+    for the oracle - the repetition runs of 1, 2, ... iterations from the same starting point."""
+    from . import sfcore as S
+    r, crit = case["recipe"], case["crit"]
+    pre_runs, cont, off = [], None, 0
+    for k in case["pre"]:
+        o = S.run_recipe(r, reps=k, continuation=cont, want_continuation=True, draw_offset=off)
+        off += len(o.get("draws", []))
+        pre_runs.append({kk: vv for kk, vv in o.items() if kk != "cont"})
+        if "ok" not in o:
+            return {"pre": pre_runs, "pre_failed": True}
+        cont = o["cont"]
+    target = tuple(crit) if crit else None
+    from .c04 import row_valued_in_once
+    # a just_once row holding a reference cannot be written to a continuation file (findings K1/K2 of
+    # C04/C05): for such recipes no file is asked for, the model comparison alone decides
+    want = not row_valued_in_once(r)
+    if crit is None:
+        fin = S.run_recipe(r, reps=1, continuation=cont, want_continuation=False, draw_offset=off)
+    elif crit[0] == COUNT_REPS:
+        fin = S.run_recipe(r, reps=crit[1], continuation=cont, want_continuation=False, draw_offset=off)
+    else:
+        fin = S.run_recipe(r, continuation=cont, want_continuation=want, target=target, draw_offset=off)
+    obs = {"pre": pre_runs, "final": {kk: vv for kk, vv in fin.items() if kk != "cont"}}
+    if crit and crit[0] != COUNT_REPS and want:
+        T, N = crit
+        obs["start_counter"] = _counter(cont, T) if cont else 0
+        if "ok" in fin:
+            obs["final"]["counter"] = _counter(fin["cont"], T)
+        ladder = []
+        for i in range(1, N + 2):
+            o = S.run_recipe(r, reps=i, continuation=cont, want_continuation=True, draw_offset=off)
+            step = {kk: vv for kk, vv in o.items() if kk not in ("cont", "draws")}
+            if "ok" in o:
+                step["counter"] = _counter(o["cont"], T)
+            ladder.append(step)
+            if "ok" not in o or step["counter"] - obs["start_counter"] >= N or \
+               (step["counter"] == (ladder[-2]["counter"] if len(ladder) > 1 else obs["start_counter"])):
+                break
+        obs["ladder"] = ladder
+    return obs
+
+
 def run_impl(case):
+    if case["kind"] == "interp":
+        return _run_interp(case)
     if case["kind"] == "direct":
         return _run_direct(case)
     if case["kind"] == "e2e":
@@ -485,7 +578,34 @@ def _session_rs(case):
     return [rows_of_iteration(case, g) for g in range(total)]
 
 
+def _interp_coq(case, obs):
+    from . import sfcore as S
+    if obs.get("pre_failed"):
+        return None
+    fin = obs["final"]
+    if "ok" in fin:
+        if not S.comparable(fin["ok"]):
+            return None
+        exp = f"(Ok {S.rows_coq(fin['ok'])})"
+    else:
+        exp = f"(Err {C.cerr(fin['err'])})"
+    crit = case["crit"]
+    fuel = 1 if crit is None else crit[1] + 1
+    draws = [d for run in obs["pre"] for d in run.get("draws", [])] + list(fin.get("draws", []))
+    return (f"CTarget PFull {S.recipe_coq(case['recipe'], draws)} {C.clist(C.cnat(k) for k in case['pre'])} "
+            f"{_ccrit(crit)} {C.cnat(fuel)} {exp}")
+
+
 def coq_case(case, obs):
+    t = _coq_case(case, obs)
+    if t is None:
+        return None
+    return f"CInt ({t})" if case["kind"] == "interp" else f"CAbs ({t})"
+
+
+def _coq_case(case, obs):
+    if case["kind"] == "interp":
+        return _interp_coq(case, obs)
     if case["kind"] == "direct":
         cont = C.copt(case["cont"], C.cz)
         return (f"CDirect {_ccrit(case['crit'])} {cont} {C.clist(C.cz(r) for r in case['rs'])} "
@@ -602,7 +722,61 @@ def _violations(case, obs):
     return v
 
 
+def _interp_oracle(case, obs):
+    """The property on a real recipe: the target run must equal the repetition run of the FIRST number
+    of whole iterations after which >= N rows of T were created since this run's start; an iteration
+    that creates no row of T before that ends the run with RuntimeError; a name no template creates
+    is rejected with Snowfakery's error before any row."""
+    from . import sfcore as S
+    if obs.get("pre_failed"):
+        return None
+    crit, fin = case["crit"], obs["final"]
+    if "err" in fin and fin["err"] not in ("DGE", "RuntimeError"):
+        return f"internal-error: {fin['err']}: {fin.get('msg', '')[:120]}"
+    if crit is None or crit[0] == COUNT_REPS:
+        return None                      # compared with the model; the direct/e2e streams judge repetitions
+    T, N = crit
+    tables = {t["table"] for t in S.walk_templates(case["recipe"]) if not t["table"].startswith("__")}
+    if T not in tables:          # hidden tables are not targets: none of their rows can reach an output
+        if fin.get("err") != "DGE" or fin.get("rows"):
+            return (f"unknown-target: target {T!r} is created by no template but the run gave "
+                    f"{fin.get('err', 'ok')} after {len(fin.get('rows', fin.get('ok', [])))} rows")
+        return None
+    if "ladder" not in obs:
+        return None
+    ladder, start = obs["ladder"], obs["start_counter"]
+    prev = start
+    for i, step in enumerate(ladder, 1):
+        if "err" in step:
+            if fin.get("err") != step["err"]:
+                return (f"interp-outcome: repetition run of {i} iterations fails with {step['err']} before the "
+                        f"target is met, the target run gave {fin.get('err', 'ok')}")
+            return None
+        if step["counter"] == prev:
+            if fin.get("err") != "RuntimeError":
+                return (f"interp-no-progress: iteration {i} creates no row of {T} (counter {prev}) before the target "
+                        f"{N} is met, but the run gave {fin.get('err', 'ok')}")
+            return None
+        if step["counter"] - start >= N:
+            if "ok" not in fin:
+                return (f"interp-outcome: {i} whole iterations create {step['counter'] - start} >= {N} rows of {T}, "
+                        f"but the target run failed with {fin['err']}")
+            if fin["ok"] != step["ok"]:
+                return (f"interp-first-boundary: the target run ({T}, {N}) wrote {len(fin['ok'])} rows, the repetition "
+                        f"run of {i} iterations (first boundary with >= {N} rows of {T}) wrote {len(step['ok'])}")
+            if not T.startswith("__"):
+                n_t = sum(1 for t, _ in fin["ok"] if t == T)
+                if n_t != fin["counter"] - start:
+                    return (f"interp-counter: the counter of {T} advanced by {fin['counter'] - start} but {n_t} rows "
+                            f"of {T} were written")
+            return None
+        prev = step["counter"]
+    return None
+
+
 def oracle(case, obs):
+    if case["kind"] == "interp":
+        return _interp_oracle(case, obs)
     v = _violations(case, obs)
     if v:
         return f"{v[0][0]}: {v[0][1]}"
@@ -635,6 +809,9 @@ def match_finding(case, obs, msg, findings):
 
 # ---------------------------------------------------------------- evidence
 def nontrivial(case, obs):
+    if case["kind"] == "interp":
+        fin = obs.get("final") or {}
+        return bool(case["crit"]) and ("ok" in fin and len(fin["ok"]) >= 2 or fin.get("err") == "RuntimeError")
     if case["kind"] == "direct":
         crit = case["crit"]
         if crit is None:
@@ -678,8 +855,23 @@ def stats(cases, obss):
     apis = Counter()
     feats = Counter()
     zeros = 0
+    interp = Counter()
     for c, o in zip(cases, obss):
         if not isinstance(o, dict):
+            continue
+        if c["kind"] == "interp":
+            k = c["crit"]
+            fin = o.get("final") or {}
+            interp["criterion:" + ("none" if k is None else "reps" if k[0] == COUNT_REPS else "target")] += 1
+            interp["history:" + "+".join(map(str, c["pre"])) + "+target"] += 1
+            interp["outcome:" + ("pre-failed" if o.get("pre_failed") else "ok" if "ok" in fin else fin.get("err", "?"))] += 1
+            if k and k[0] != COUNT_REPS and "ladder" in o:
+                interp["iterations_to_target:%d" % len(o["ladder"])] += 1
+                if k[0].startswith("__"):
+                    interp["hidden_criterion_table"] += 1
+            for f in c.get("features", []):
+                if f in ("forward_ref", "dual_forward_ref", "zero_count", "count_formula", "just_once", "random_reference"):
+                    interp["feature:" + f] += 1
             continue
         if c["kind"] == "direct" and "outcome" in o:
             k = c["crit"]
@@ -704,7 +896,7 @@ def stats(cases, obss):
                 crit["none" if k is None else "reps" if k[0] == COUNT_REPS else "target"] += 1
                 outcomes["e2e:" + ro["outcome"]] += 1
                 iters[min(ro["rows"].count("E"), 10)] += 1
-    return {"kinds": dict(kinds), "criteria": dict(crit), "outcomes": dict(outcomes),
+    return {"kinds": dict(kinds), "interp_stream": dict(interp), "criteria": dict(crit), "outcomes": dict(outcomes),
             "iterations_per_run(10=10+)": {str(k): v for k, v in sorted(iters.items())},
             "direct_start": dict(conts), "direct_with_zero_iteration": zeros,
             "e2e_shapes": dict(shapes), "e2e_runs_per_session": {str(k): v for k, v in nruns.items()},
@@ -712,6 +904,15 @@ def stats(cases, obss):
 
 
 def shrink(case):
+    if case["kind"] == "interp":
+        from . import sfcore as S
+        if case["pre"]:
+            yield dict(case, pre=case["pre"][1:])
+        if case["crit"] and case["crit"][1] > 1:
+            yield dict(case, crit=[case["crit"][0], case["crit"][1] - 1])
+        for c2 in S.shrink_recipe_case({"recipe": case["recipe"], "reps": 1}):
+            yield dict(case, recipe=c2["recipe"])
+        return
     if case["kind"] == "direct":
         rs = case["rs"]
         for i in range(len(rs)):
@@ -749,4 +950,5 @@ def directed_search(rng, disagreeing):
     out.extend(gen_direct_random(rng, 4000))
     out.extend(gen_e2e_fixed())
     out.extend(gen_e2e(rng) for _ in range(1500))
+    out.extend(gen_interp(rng) for _ in range(1200))
     return out
